@@ -3,6 +3,7 @@ package rules
 import (
 	"fmt"
 	"go/token"
+	"go/types"
 	"strings"
 
 	"golang.org/x/tools/go/ssa"
@@ -206,13 +207,54 @@ func p0IsPhiOf(v, want ssa.Value) bool {
 }
 
 func c05Apply(c *eng.Ctx, rule string) {
-	fn := c.MustFunc(rule,corePkg, "Apply")
+	fn := c.MustFunc(rule, corePkg, "Apply")
 	if fn == nil {
 		return
 	}
-	// provenance: does a map value derive (through .Contents loads, lookups, phis) from a Copy call only?
-	var fromCopy func(v ssa.Value, seen map[ssa.Value]bool) (bool, string)
-	fromCopy = func(v ssa.Value, seen map[ssa.Value]bool) (bool, string) {
+	// paramSources: the parameters of callee f from which v derives through
+	// loads of fields, map lookups, φs and slices only (a helper that walks
+	// down a tree it was given returns a pointer into that tree).
+	var paramSources func(v ssa.Value, seen map[ssa.Value]bool, out map[int]bool) bool
+	paramSources = func(v ssa.Value, seen map[ssa.Value]bool, out map[int]bool) bool {
+		v = eng.Unwrap(v)
+		if seen[v] {
+			return true
+		}
+		seen[v] = true
+		switch x := v.(type) {
+		case *ssa.Parameter:
+			for i, p := range x.Parent().Params {
+				if p == x {
+					out[i] = true
+				}
+			}
+			return true
+		case *ssa.Phi:
+			for _, e := range x.Edges {
+				if !paramSources(e, seen, out) {
+					return false
+				}
+			}
+			return true
+		case *ssa.UnOp:
+			if x.Op == token.MUL {
+				if fa, ok := x.X.(*ssa.FieldAddr); ok {
+					return paramSources(fa.X, seen, out)
+				}
+			}
+		case *ssa.Extract:
+			return paramSources(x.Tuple, seen, out)
+		case *ssa.Lookup:
+			return paramSources(x.X, seen, out)
+		case *ssa.Const:
+			return true
+		}
+		return false
+	}
+	// provenance: does a value derive (through .Contents loads, lookups, φs and
+	// tree-walking helpers of this package) from a Copy call only?
+	var fromCopy func(v ssa.Value, idx int, seen map[ssa.Value]bool) (bool, string)
+	fromCopy = func(v ssa.Value, idx int, seen map[ssa.Value]bool) (bool, string) {
 		v = eng.Unwrap(v)
 		if seen[v] {
 			return true, ""
@@ -223,10 +265,28 @@ func c05Apply(c *eng.Ctx, rule string) {
 			if eng.CalleeName(x) == "(*synchronization/core.Entry).Copy" {
 				return true, ""
 			}
+			if callee := x.Call.StaticCallee(); callee != nil && callee.Blocks != nil && eng.FuncPkgRel(callee) == corePkg {
+				srcs := map[int]bool{}
+				for _, r := range eng.Returns(callee) {
+					res := eng.RetResults(r)
+					if idx >= len(res) {
+						return false, "call " + eng.CalleeName(x)
+					}
+					if !paramSources(res[idx], map[ssa.Value]bool{}, srcs) {
+						return false, "helper " + eng.CalleeName(x) + " returns a value that is not a walk from its parameters"
+					}
+				}
+				for i := range srcs {
+					if ok, why := fromCopy(x.Call.Args[i], 0, seen); !ok {
+						return false, why
+					}
+				}
+				return true, ""
+			}
 			return false, "call " + eng.CalleeName(x)
 		case *ssa.Phi:
 			for _, e := range x.Edges {
-				if ok, why := fromCopy(e, seen); !ok {
+				if ok, why := fromCopy(e, idx, seen); !ok {
 					return false, why
 				}
 			}
@@ -234,13 +294,13 @@ func c05Apply(c *eng.Ctx, rule string) {
 		case *ssa.UnOp:
 			if x.Op == token.MUL {
 				if fa, ok := x.X.(*ssa.FieldAddr); ok {
-					return fromCopy(fa.X, seen)
+					return fromCopy(fa.X, 0, seen)
 				}
 			}
 		case *ssa.Extract:
-			return fromCopy(x.Tuple, seen)
+			return fromCopy(x.Tuple, x.Index, seen)
 		case *ssa.Lookup:
-			return fromCopy(x.X, seen)
+			return fromCopy(x.X, 0, seen)
 		case *ssa.Parameter:
 			return false, "parameter " + x.Name() + " (caller-owned tree)"
 		case *ssa.Const:
@@ -255,41 +315,163 @@ func c05Apply(c *eng.Ctx, rule string) {
 		switch x := i.(type) {
 		case *ssa.MapUpdate:
 			n++
-			ok, why := fromCopy(x.Map, map[ssa.Value]bool{})
-			c.Check(rule,"mutates-own-copy:update", x.Pos(), ok, "Apply inserts only into its own copy of the tree", why)
+			ok, why := fromCopy(x.Map, 0, map[ssa.Value]bool{})
+			c.Check(rule, "mutates-own-copy:update", x.Pos(), ok, "Apply inserts only into its own copy of the tree", why)
 			vr := eng.Render(x.Value)
-			c.Check(rule,"inserts-copy", x.Pos(), strings.HasPrefix(vr, "(*synchronization/core.Entry).Copy(") && strings.Contains(vr, ".New,"), "the inserted subtree is a copy of change.New", vr)
-			c.Check(rule,"insert-only-non-nil", x.Pos(), newNilGuard(eng.Guards(x), false), "insertion happens only for change.New != nil", eng.AtomsText(eng.Guards(x)))
+			c.Check(rule, "inserts-copy", x.Pos(), strings.HasPrefix(vr, "(*synchronization/core.Entry).Copy(") && strings.Contains(vr, ".New,"), "the inserted subtree is a copy of change.New", vr)
+			c.Check(rule, "insert-only-non-nil", x.Pos(), newNilGuard(eng.Guards(x), false), "insertion happens only for change.New != nil", eng.AtomsText(eng.Guards(x)))
 		case *ssa.Call:
 			if eng.CalleeName(x) == "builtin:delete" {
 				n++
-				ok, why := fromCopy(x.Call.Args[0], map[ssa.Value]bool{})
-				c.Check(rule,"mutates-own-copy:delete", x.Pos(), ok, "Apply deletes only from its own copy of the tree", why)
-				c.Check(rule,"delete-only-nil", x.Pos(), newNilGuard(eng.Guards(x), true), "deletion happens only for change.New == nil", eng.AtomsText(eng.Guards(x)))
+				ok, why := fromCopy(x.Call.Args[0], 0, map[ssa.Value]bool{})
+				c.Check(rule, "mutates-own-copy:delete", x.Pos(), ok, "Apply deletes only from its own copy of the tree", why)
+				c.Check(rule, "delete-only-nil", x.Pos(), newNilGuard(eng.Guards(x), true), "deletion happens only for change.New == nil", eng.AtomsText(eng.Guards(x)))
 			}
 		case *ssa.Store:
 			if fa, ok := x.Addr.(*ssa.FieldAddr); ok && eng.FieldOf(fa).Name() == "Contents" {
 				n++
-				ok, why := fromCopy(fa.X, map[ssa.Value]bool{})
-				c.Check(rule,"mutates-own-copy:contents", x.Pos(), ok, "a content map is installed only in Apply's own copy", why)
-				c.Check(rule,"allocate-only-on-insert", x.Pos(), newNilGuard(eng.Guards(x), false), "a content map is allocated only when inserting (never while deleting)", eng.AtomsText(eng.Guards(x)))
+				ok, why := fromCopy(fa.X, 0, map[ssa.Value]bool{})
+				c.Check(rule, "mutates-own-copy:contents", x.Pos(), ok, "a content map is installed only in Apply's own copy", why)
+				c.Check(rule, "allocate-only-on-insert", x.Pos(), newNilGuard(eng.Guards(x), false), "a content map is allocated only when inserting (never while deleting)", eng.AtomsText(eng.Guards(x)))
 			}
 		}
 	})
 	if n < 3 {
-		c.Problem(rule,"expected ≥3 mutations in Apply, found %d", n)
+		c.Problem(rule, "expected ≥3 mutations in Apply, found %d", n)
 	}
-	// Missing parent → error.
-	for _, r := range eng.Returns(fn) {
-		res := eng.RetResults(r)
-		g := eng.Guards(r)
-		for _, a := range g {
-			if strings.HasPrefix(a.Expr, "lookupok(") && strings.HasSuffix(a.Expr, "#1") && !a.Pos {
-				c.Check(rule,"missing-parent-is-error", r.Pos(), !eng.IsNilConst(res[1]) && eng.IsNilConst(res[0]), "an unresolvable parent path fails the whole Apply")
+	// Missing parent → error (in Apply itself or in a tree-walking helper whose
+	// error Apply returns).
+	nMissing := 0
+	missing := func(f *ssa.Function, viaHelper *ssa.Call) {
+		for _, r := range eng.Returns(f) {
+			res := eng.RetResults(r)
+			for _, a := range eng.Guards(r) {
+				if strings.HasPrefix(a.Expr, "lookupok(") && strings.HasSuffix(a.Expr, "#1") && !a.Pos {
+					ok := !eng.IsNilConst(res[len(res)-1])
+					if viaHelper == nil {
+						ok = ok && eng.IsNilConst(res[0])
+					} else {
+						// Apply fails when the helper failed
+						prop := false
+						for _, ar := range eng.Returns(fn) {
+							ares := eng.RetResults(ar)
+							for _, g := range eng.Guards(ar) {
+								if b, isB := g.V.(*ssa.BinOp); isB && !g.Pos && eng.IsNilConst(b.Y) {
+									if ex, isEx := b.X.(*ssa.Extract); isEx && ex.Tuple == ssa.Value(viaHelper) && !eng.IsNilConst(ares[1]) && eng.IsNilConst(ares[0]) {
+										prop = true
+									}
+								}
+							}
+						}
+						ok = ok && prop
+					}
+					nMissing++
+					c.Check(rule, "missing-parent-is-error", r.Pos(), ok, "an unresolvable parent path fails the whole Apply")
+				}
 			}
 		}
 	}
-	c.Floor(rule,8)
+	missing(fn, nil)
+	for _, ci := range eng.Calls(fn) {
+		if cl, ok := ci.(*ssa.Call); ok {
+			if callee := cl.Call.StaticCallee(); callee != nil && callee.Blocks != nil && eng.FuncPkgRel(callee) == corePkg && callee.Signature.Recv() == nil {
+				missing(callee, cl)
+			}
+		}
+	}
+	if nMissing == 0 {
+		c.Check(rule, "missing-parent-is-error", fn.Pos(), false, "an unresolvable parent path fails the whole Apply")
+	}
+
+	// Every change of the list is applied: each way through one iteration of
+	// the change loop replaces the root, deletes a name or inserts a copy —
+	// there is no path that skips a change.
+	var hdr *ssa.BasicBlock
+	for _, b := range fn.Blocks {
+		if b.Comment == "rangeindex.loop" {
+			if iff, ok := b.Instrs[len(b.Instrs)-1].(*ssa.If); ok && strings.HasSuffix(eng.Render(iff.Cond), "< len(p1))") {
+				hdr = b
+			}
+		}
+	}
+	if hdr == nil {
+		c.Problem(rule, "change loop of Apply not found")
+		return
+	}
+	var treePhi *ssa.Phi
+	var others []*ssa.Phi
+	for _, in := range hdr.Instrs {
+		phi, ok := in.(*ssa.Phi)
+		if !ok {
+			continue
+		}
+		if phi.Comment == "rangeindex" {
+			continue
+		}
+		if eng.TypeShort(phi.Type()) == "*synchronization/core.Entry" && treePhi == nil {
+			isTree := false
+			for _, e := range phi.Edges {
+				if cl, ok := eng.Unwrap(e).(*ssa.Call); ok && eng.CalleeName(cl) == "(*synchronization/core.Entry).Copy" && eng.Render(cl.Call.Args[0]) == "p0" {
+					isTree = true
+				}
+			}
+			if isTree {
+				treePhi = phi
+				continue
+			}
+		}
+		others = append(others, phi)
+	}
+	body := hdr.Succs[0]
+	paths, complete := eng.EnumPaths(body, func(b *ssa.BasicBlock) bool { return b == hdr || len(b.Succs) == 0 }, 5000)
+	if !complete {
+		c.Problem(rule, "too many paths through the change loop of Apply")
+	}
+	nIter, skipped, stale := 0, 0, ""
+	for _, p := range paths {
+		if p.Last() != hdr {
+			continue // error exits
+		}
+		nIter++
+		effects := 0
+		pred := p.Blocks[len(p.Blocks)-2]
+		var predIdx int
+		for j, q := range hdr.Preds {
+			if q == pred {
+				predIdx = j
+			}
+		}
+		rootReplaced := treePhi != nil && treePhi.Edges[predIdx] != ssa.Value(treePhi)
+		if rootReplaced {
+			effects++
+		}
+		for _, b := range p.Blocks {
+			for _, in := range b.Instrs {
+				switch x := in.(type) {
+				case *ssa.MapUpdate:
+					effects++
+				case *ssa.Call:
+					if eng.CalleeName(x) == "builtin:delete" {
+						effects++
+					}
+				}
+			}
+		}
+		if effects == 0 {
+			skipped++
+		}
+		// a pointer into the tree that survives an iteration must be re-derived when the root is replaced
+		if rootReplaced {
+			for _, o := range others {
+				if _, isPtr := o.Type().Underlying().(*types.Pointer); isPtr && o.Edges[predIdx] == ssa.Value(o) {
+					stale = o.Comment
+				}
+			}
+		}
+	}
+	c.Check(rule, "every-change-applied", hdr.Instrs[0].Pos(), nIter > 0 && skipped == 0, "every change of the list is applied: no way through an iteration skips the change (no 'already up to date' shortcut)", fmt.Sprintf("%d of %d ways through an iteration have no effect", skipped, nIter))
+	c.Check(rule, "no-stale-tree-pointer-across-root-replacement", hdr.Instrs[0].Pos(), stale == "", "a pointer into the tree that is carried from one change to the next is re-derived when a change replaces the root", stale)
+	c.Floor(rule, 10)
 }
 
 // newNilGuard reports whether guards contain (X.New == nil) with polarity pol.
